@@ -215,6 +215,19 @@ impl Collector {
 }
 
 
+/// Access to the private path functions for verification.
+#[cfg(routinator_verif)]
+impl Collector {
+    /// Returns the module directory and the file path used for `uri`.
+    pub fn verif_paths(&self, uri: &uri::Rsync) -> (PathBuf, PathBuf) {
+        (
+            self.working_dir.module_path(Module::from_uri(uri).as_ref()),
+            self.working_dir.uri_path(uri),
+        )
+    }
+}
+
+
 //------------ Run -----------------------------------------------------------
 
 /// Using the rsync collector during a validation run.
